@@ -70,7 +70,10 @@ type Report struct {
 	Errors     []string // CHECKER-ERROR conditions
 	Variants   struct{ Generated, Detected, Skipped int }
 	Notes      []string
+	Survivors  []string
 	start      time.Time
+	prog       *Prog
+	loadFailed bool
 }
 
 // Rule is one rule of a property.
@@ -254,43 +257,56 @@ func cfgName(lc LoadConfig) string {
 	return strings.TrimPrefix(s, "/ ")
 }
 
+// runConfig loads one build configuration and runs the property's rules into rep.
+func runConfig(rep *Report, prop *Prop, tier string, lc LoadConfig, quiet bool) {
+	lc.AllDeps = prop.AllDeps
+	name := cfgName(lc)
+	defer func() {
+		if r := recover(); r != nil {
+			if ae, ok := r.(AnchorError); ok {
+				rep.Errors = append(rep.Errors, fmt.Sprintf("[%s] anchor: %s", name, ae.Msg))
+				return
+			}
+			rep.Errors = append(rep.Errors, fmt.Sprintf("[%s] panic in checker: %v", name, r))
+			if os.Getenv("SIOT_DEBUG") != "" {
+				panic(r)
+			}
+		}
+	}()
+	t0 := time.Now()
+	prog, err := Load(lc)
+	if err != nil {
+		rep.Errors = append(rep.Errors, fmt.Sprintf("[%s] load: %v", name, err))
+		rep.loadFailed = true
+		return
+	}
+	rep.Packages = len(prog.Roots)
+	rep.Configs = append(rep.Configs, name)
+	rep.prog = prog
+	if !quiet {
+		fmt.Printf("loaded %d root packages of %s [%s] in %.1fs\n", len(prog.Roots), prog.Cfg.Dir, name, time.Since(t0).Seconds())
+	}
+	c := &Ctx{Prop: prop, Tier: tier, P: prog, Config: name, rep: rep}
+	prop.Run(c)
+}
+
+func newReport(propID, tier string) *Report {
+	return &Report{PropID: propID, Tier: tier, Rules: map[string]*Rule{}, Functions: map[string]bool{}, start: time.Now()}
+}
+
 // Main runs one property and returns the process exit code.
 func Main(propID, tier string) (code int) {
-	start := time.Now()
 	prop := Lookup(propID)
 	if prop == nil {
 		fmt.Printf("CHECKER-ERROR property=%s unknown property (registered: %v)\n", propID, IDs())
 		return 2
 	}
-	rep := &Report{PropID: propID, Tier: tier, Rules: map[string]*Rule{}, Functions: map[string]bool{}, start: start}
+	rep := newReport(propID, tier)
 	for _, lc := range Matrix(tier) {
-		lc.AllDeps = prop.AllDeps
-		name := cfgName(lc)
-		func() {
-			defer func() {
-				if r := recover(); r != nil {
-					if ae, ok := r.(AnchorError); ok {
-						rep.Errors = append(rep.Errors, fmt.Sprintf("[%s] anchor: %s", name, ae.Msg))
-						return
-					}
-					rep.Errors = append(rep.Errors, fmt.Sprintf("[%s] panic in checker: %v", name, r))
-					if os.Getenv("SIOT_DEBUG") != "" {
-						panic(r)
-					}
-				}
-			}()
-			t0 := time.Now()
-			prog, err := Load(lc)
-			if err != nil {
-				rep.Errors = append(rep.Errors, fmt.Sprintf("[%s] load: %v", name, err))
-				return
-			}
-			rep.Packages = len(prog.Roots)
-			rep.Configs = append(rep.Configs, name)
-			fmt.Printf("loaded %d root packages of %s [%s] in %.1fs\n", len(prog.Roots), prog.Cfg.Dir, name, time.Since(t0).Seconds())
-			c := &Ctx{Prop: prop, Tier: tier, P: prog, Config: name, rep: rep}
-			prop.Run(c)
-		}()
+		runConfig(rep, prop, tier, lc, false)
+	}
+	if tier == "thorough" || os.Getenv("SIOT_SWEEP") != "" {
+		sweep(rep, prop, tier)
 	}
 	return rep.finish(prop)
 }
@@ -410,6 +426,7 @@ func (rep *Report) finish(prop *Prop) int {
 		"variants_generated":     rep.Variants.Generated,
 		"variants_detected":      rep.Variants.Detected,
 		"variants_skipped":       rep.Variants.Skipped,
+		"variants_undetected":    rep.Survivors,
 		"known_findings_matched": knownMatched,
 		"checker_errors":         rep.Errors,
 		"notes":                  rep.Notes,
